@@ -69,8 +69,11 @@ def routing_script(prog, rounds: int = 3, gate: bool = True) -> str:
     lines = preamble(prog) + ['final', 'addresses']
 
     def claim_for(client):
+        # once it holds the claim the client connects its handlers anew (a view that is
+        # re-created): the out-events go to what is bound now
         return [f'reply comp/{mci["port"]}/{mci["claim"]} {mci["grant"]}',
-                f'call {mci["port"]}/{mci["claim"]} {client}', 'quiesce']
+                f'call {mci["port"]}/{mci["claim"]} {client}', 'quiesce',
+                f'bindall {client}']
 
     def release_by(client):
         return [f'call {mci["port"]}/{mci["release"]} {client}', 'quiesce']
